@@ -11,7 +11,7 @@ U = 100  # seconds of driver time per clock unit of the design model
 
 AF_DEFAULT = dict(Checks="{1,2,3}", Filters="{1}", MaxSid=2, MaxTok=3, MaxCode=2, MaxTime=2, TokLife=1, MaxFaults=0,
                   MaxInFlight=1, Kinds='{"app","callback","logout"}', Attacker="FALSE", WriteCreatesAbsent="TRUE",
-                  KeyedByIdOnly="TRUE", ClearAbsentFails="FALSE", Export="FALSE")
+                  KeyedByIdOnly="TRUE", ClearAbsentFails="FALSE", NoExpiresInMeansExpired="FALSE", Export="FALSE")
 SCN_DEFAULT = dict(Prepared='"none"', Target=0, MaxLogouts=0, MaxApps=0, MaxCallbacks=0, AllowTick="FALSE", AllowAuthz="FALSE")
 
 
@@ -48,6 +48,8 @@ def ans_spec(a, toklife):
         return base
     if a == "okNoRt":
         return dict(base, rt=False)
+    if a == "okNoExpNoRt":
+        return {"mode": "honest", "rt": False, "idLife": L}
     if a == "okRotate":
         return dict(base, rotate=True)
     if a == "failBefore":
@@ -485,6 +487,17 @@ def c02(W, replay=None):
 
 def c03(W, replay=None):
     W.build()
+    if not replay:
+        # design level: the browser process on AuthFlow reaches OK after one pass (invariant + liveness under weak fairness);
+        # with the repaired defect switched back on (a login answer without expires_in stored as expired) both fail
+        consts = dict(AF_DEFAULT, Checks="{1,2,3,4,5,6}", MaxSid=3, MaxTok=4, MaxCode=3, MaxTime=1, TokLife=1, Kinds='{"app","callback"}')
+        good = cfg_text("BSpec", consts, ["OnePass", "NotStuck"], extra="PROPERTY LoginEnds\n")
+        out, viol = W.tlc_exhaustive("AuthFlowBrowser", good, "c03-design", workers=4, timeout=1200)
+        if viol:
+            raise Infra("AuthFlowBrowser violates %s: the specification is wrong" % viol)
+        bad = cfg_text("BSpec", dict(consts, NoExpiresInMeansExpired="TRUE"), ["OnePass", "NotStuck"], extra="PROPERTY LoginEnds\n")
+        out, viol = W.tlc_exhaustive("AuthFlowBrowser", bad, "c03-design-defect", workers=4, timeout=1200, expect_violation=True)
+        log("[design] with 'no expires_in means expired' the browser model %s OnePass / LoginEnds" % ("VIOLATES" if viol else "satisfies"))
     scen = [] if replay else family(W, "C03")
     return sys_pipeline("C03", W, scen, None, ASSUME_SYS + ["callback and logout paths satisfy the trigger rules (documented precondition)",
                                                          "the browser follows every 302 and keeps cookies per RFC 6265 user-agent parsing"], replay=replay)
